@@ -31,14 +31,17 @@ DOCS = [
     {"users": [{"name": "n1", "tags": ["x", "y"], "n": 0}, {"name": "n2", "tags": [], "n": None}, {"name": "n3"}]},
     {"1": {"2": [0, 1, 2, 3]}, "0": "zero"},
     [[1, 2, 3], [4, 5], []],
+    # arrays long enough for two-digit indices (rank order is numeric order, not the order of the index spellings)
+    {"foo": [f"v{i}" for i in range(12)], "rows": [{"id": i, "tags": [i, i + 1]} for i in range(11)]},
+    [[i, i * 2] for i in range(13)],
     # string values that happen to hold JSON text (they are strings, not containers)
     {"events": [{"payload": "{\"a\": 1, \"name\": \"bob\", \"tags\": [\"x\", \"y\"]}"}, {"payload": "[10, 20, 30]"}, {"payload": "{oops"}, {"payload": {"a": 2, "name": "n"}}],
      "a": "{\"a\": [1, 2]}", "b": "[1, 2, 3]"},
 ]
-MATCH_Q = ["$.events[*].payload", "$.events[*]", "$..payload", "$", "$.a", "$.b", "$[0]", "$[*]", "$.users[*]", "$.users", "$..b", "$.e", "$.d", "$[4]", "$['1']", "$[2]", "$..tags", "$.nosuch"]
+MATCH_Q = ["$.foo", "$.rows", "$[9:]", "$.events[*].payload", "$.events[*]", "$..payload", "$", "$.a", "$.b", "$[0]", "$[*]", "$.users[*]", "$.users", "$..b", "$.e", "$.d", "$[4]", "$['1']", "$[2]", "$..tags", "$.nosuch"]
 REL_Q = ["$.a", "$.b", "$.x", "$.name", "$.tags", "$.tags[0]", "$.tags[1]", "$[0]", "$[1]", "$[2]", "$[0:2]", "$[1:]", "$[*]", "$.*", "$.b[0]", "$.b[1:]", "$.b[*]",
          "$[-1].a", "$[-1].b", "$[-4].b[0]", "$[-4].a", "$[-5].a", "$[1].a", "$[-1]", "$.users[-1].name", "$.users[2].tags", "$.users[-3].tags[-1]", "$.b[-1]", "$.c[-3]", "$.tags[-1]",
-         "$[-2].x", "$[1].y", "$[-1].x", "$.c", "$.c[1]", "$.c[0, 2]", "$[0].a", "$[1].b[0]", "$[*].a", "$.users[*].name", "$.users[0,2].name", "$.users[1:].tags[0]", "$['2'][1:3]", "$['2'][0]",
+         "$[-2].x", "$[1].y", "$.foo[2]", "$.foo[10]", "$.foo[8:]", "$.foo[*]", "$[2]", "$[10]", "$[8:]", "$[9:12].id", "$.rows[1, 10].id", "$.rows[*].tags[0]", "$[10][0]", "$[2][1]", "$[11]", "$[-1].x", "$.c", "$.c[1]", "$.c[0, 2]", "$[0].a", "$[1].b[0]", "$[*].a", "$.users[*].name", "$.users[0,2].name", "$.users[1:].tags[0]", "$['2'][1:3]", "$['2'][0]",
          "$.e", "$.f", "$.g", "$.h", "$.i", "$..name", "$[*].b[0]", "$.nosuch", "$.d", "$['1']", "$.n"]
 
 
@@ -121,10 +124,10 @@ def gen(ctx):
 
     for _ in range(n):
         doc = ctx.rng.choice(docs)
-        for attempt in range(12):
+        for attempt in range(40):
             mq = ctx.rng.choice(MATCH_Q)
             sel = [ctx.rng.choice(REL_Q) for _ in range(ctx.rng.randint(1, 3))]
-            if attempt == 11 or ctx.rng.random() < 0.1 or selects_something(doc, mq, sel):
+            if attempt == 39 or ctx.rng.random() < 0.1 or selects_something(doc, mq, sel):
                 break
         cases.append({"doc": doc, "match": mq, "sel": sel, "style": ctx.rng.choice(["RELATIVE", "FLAT", "ROOT"])})
     # overlapping selections (a container, then something strictly below it, at every depth): the theorems exclude
